@@ -520,6 +520,9 @@ func (p *PipelinedMemDB) Staging() int {
 
 // Cleanup implements MemBuffer interface.
 func (p *PipelinedMemDB) Cleanup(h int) {
+	// BatchGet also caches values found in the mutable buffer; discarding a staging level may remove
+	// such a write, so the cache must not outlive it.
+	p.batchGetCache = nil
 	p.memDB.Cleanup(h)
 }
 
